@@ -324,6 +324,21 @@ Theorem C14_acc_z_index_spec : forall k j T cs, j <= 7 ->
 Proof. exact acc_z_index_spec. Qed.
 Print Assumptions C14_acc_z_index_spec.
 
+(* general form: for whatever minimum batch size mn the source passes, correct as soon as z.len() = 2^j <= mn.
+   checks/c14.py reads mn off acc_column's source on every run and requires MAX_BLOWUP_FACTOR (air/src/options.rs) <= mn,
+   both powers of two — the constraint-evaluation blowup never exceeds the blowup factor (AirContext assertion). *)
+Theorem C14_acc_z_index_spec_gen : forall k j mn T cs, 1 <= mn -> 2 ^ j <= mn ->
+  batch_iter_chunks true (2 ^ k) mn T = Done cs ->
+  acc_z_index_batched (2 ^ j) cs = acc_z_index_serial (2 ^ j) (2 ^ k).
+Proof. exact acc_z_index_spec_gen. Qed.
+Print Assumptions C14_acc_z_index_spec_gen.
+
+(* a minimum of 16 (MIN_FRAGMENT_SIZE) is refuted: trace length 8, ce blowup 32, 12 threads (seeded change C14-r2m2) *)
+Theorem C14_acc_z_index_min16_refuted : exists cs, batch_iter_chunks true (2 ^ 8) 16 12 = Done cs /\
+  acc_z_index_batched (2 ^ 5) cs <> acc_z_index_serial (2 ^ 5) (2 ^ 8).
+Proof. exact acc_z_index_min16_refuted. Qed.
+Print Assumptions C14_acc_z_index_min16_refuted.
+
 (* ... and it does rest on that minimum (non-vacuity / fragility witness) *)
 Theorem C14_acc_z_index_needs_min_batch : acc_z_index_batched 8 [(0, 4); (4, 4)] <> acc_z_index_serial 8 8.
 Proof. exact acc_z_index_needs_min_batch. Qed.
